@@ -109,6 +109,13 @@ private:
 	// The object's raw attributes
 	std::map<CK_ATTRIBUTE_TYPE, OSAttribute*> attributes;
 
+	// Snapshot of the attributes taken at the start of a transaction
+	std::map<CK_ATTRIBUTE_TYPE, OSAttribute*> transactionBackup;
+	bool inTransaction;
+
+	// Discard the transaction snapshot
+	void discardBackup();
+
 	// The object's validity state
 	bool valid;
 
